@@ -288,7 +288,7 @@ pub fn campaign(rep: &Report, target: &str, runs_per_job: u64, max_len: usize) {
         .arg(format!("-runs={runs_per_job}"))
         .arg(format!("-seed={fseed}"))
         .arg(format!("-max_len={max_len}"))
-        .args(["-len_control=0", "-timeout=120", "-rss_limit_mb=6000", "-print_final_stats=1", "-reload=1"])
+        .args(["-len_control=0", "-timeout=120", "-rss_limit_mb=3000", "-malloc_limit_mb=1024", "-print_final_stats=1", "-reload=1"])
         .args(if target == "fz_add" { vec![format!("-dict={}", fuzz_dir().join("tera.dict").display())] } else { vec![] })
         .arg(format!("-jobs={jobs}"))
         .arg(format!("-workers={jobs}"))
@@ -360,8 +360,15 @@ pub fn campaign(rep: &Report, target: &str, runs_per_job: u64, max_len: usize) {
                 rep.fail(Fail::new(format!("{prop}/fuzz/process-died"), format!("{target}: the process died on this input ({})", died.first().cloned().unwrap_or_default()), json!({"kind": "fuzz_bytes", "target": target, "hex": hex(&data)})));
             }
         }
+        // a job that ran into libFuzzer's memory or time limit ends early: generated cases can be legitimate resource bombs
+        // (the in-process families filter them with a work budget; a mutated input can get past it). That says nothing about
+        // the property: the input is kept as an artifact, the executions done so far count, and the evidence says how many
+        // jobs ended this way. Only a campaign in which hardly anything ran is inconclusive.
         if !slow.is_empty() {
-            rep.inconclusive(&format!("{target}: {}", slow[0]));
+            rep.extra(&format!("libfuzzer:{target}:jobs_ended_by_memory_or_time_limit"), json!({"jobs": slow.len(), "first": slow[0], "artifacts_dir": work.join("artifacts").display().to_string()}));
+            if execs < runs_per_job * jobs as u64 / 20 {
+                rep.inconclusive(&format!("{target}: {} of {} jobs hit the memory or time limit before 5% of the budget ran ({})", slow.len(), jobs, slow[0]));
+            }
         }
     }
     rep.family_done(&format!("libfuzzer:{target}"), execs, t0, false);
